@@ -1241,7 +1241,7 @@ type errorString string
 
 func (e errorString) Error() string { return string(e) }
 
-// oddFails is a caller-supplied function delegate (task-safe: no fmt, no locks):
+// oddFails is a caller-supplied function delegate (task-safe: no locks):
 // it returns its integer argument, fails for odd ones and panics for multiples of five.
 func oddFails(params []*variants.Variant, ops variants.IVariantOperations) (*variants.Variant, error) {
 	if len(params) != 1 || params[0] == nil || params[0].Type() != variants.Integer {
@@ -1249,7 +1249,7 @@ func oddFails(params []*variants.Variant, ops variants.IVariantOperations) (*var
 	}
 	n := params[0].AsInteger()
 	if n%5 == 0 && n != 0 {
-		panic("multiple of five")
+		panic(PanicValue(n)) // texts, errors, and values that are awkward to report (typed nil error at 40, struct at 45, ...)
 	}
 	if n%2 != 0 {
 		return nil, errOdd
